@@ -3,6 +3,9 @@
     Python [int] with [& | ^ << >>] is Coq [Z] with [Z.land lor lxor shiftl shiftr]. *)
 From FA Require Import model.Base.
 
+Definition in_int32 (z : Z) : Prop := - 2 ^ 31 <= z < 2 ^ 31.
+Definition in_int64 (z : Z) : Prop := - 2 ^ 63 <= z < 2 ^ 63.
+
 (* datum = (datum << 1) ^ (datum >> 63) *)
 Definition zigzag (n : Z) : Z := Z.lxor (Z.shiftl n 1) (Z.shiftr n 63).
 
